@@ -7,6 +7,9 @@
                           leading zeros, CR / CRLF line ends, attribute-value normalisation)
                           gives the denoted value
     C02_xmlid             normalize_xml_id = strip all leading / trailing spaces + collapse runs
+    C02_xmlid_expanded    an attribute whose EXPANDED name is xml:id is stored (node, seen ids, id
+                          index) normalised whatever prefix spells it; _only: no other attribute is;
+                          _spelled: the same on spellings (feeds C02_spelled_ns_*)
     C02_cdata_line_ends   a CDATA part contributes its content with CR LF / CR turned into LF
     C02_empty_cdata       an empty CDATA section changes nothing at all
     C02_namespace_uri     a declaration registers the DECODED attribute value as namespace
@@ -79,6 +82,56 @@ example : normalizeXmlId [' ', ' ', 'x', ' ', ' ', 'y', ' '] = ['x', ' ', 'y'] :
 /-- `<a xml:id='  x   y '/>`: the attribute node carries `x y` (name id 1 = xml:id). -/
 example : (build .document idSpacesLen Env.fresh idSpaces none).flat =
     some [(0, .document), (1, .element 2), (2, .attribute 1 ['x', ' ', 'y'])] := by
+  rw [build_eq_buildE]; decide +kernel
+
+/-- C02_xmlid_expanded, builder level: an attribute whose name RESOLVES to the name id of xml:id
+    — expanded name (XML namespace, `id`), whatever prefix is written — is stored normalised:
+    attribute node, `seen_ids` and the `xml_id_node` index all get `normalize_xml_id(value)`. -/
+theorem C02_xmlid_expanded (stack : NsStack) (node : Path) (st : AttrLoop) (ab : AttributeBuilder)
+    (rest : List AttributeBuilder) (env1 : Env)
+    (hname : attributeNameId st.env stack ab.pfx ab.name ab.prefixSpan = .ok (env1, Env.xmlIdName))
+    (hnew : ¬ Env.xmlIdName ∈ st.seenNames)
+    (hfresh : ¬ normalizeXmlId ab.value ∈ st.seenIds) :
+    addAttributes stack node st (ab :: rest) =
+      addAttributes stack node
+        { env := env1, seenIds := normalizeXmlId ab.value :: st.seenIds,
+          idNodes := insertId st.idNodes (normalizeXmlId ab.value) node,
+          seenNames := st.seenNames ++ [Env.xmlIdName],
+          rkids := .node (.attribute Env.xmlIdName (normalizeXmlId ab.value)) [] :: st.rkids,
+          aspans := st.aspans ++ [(Env.xmlIdName, ab.nameSpan, ab.valueSpan)] } rest := by
+  have hc : st.seenNames.contains Env.xmlIdName = false := by simpa using hnew
+  have hf : st.seenIds.contains (normalizeXmlId ab.value) = false := by simpa using hfresh
+  rw [addAttributes]
+  simp only [hname, hc, Bool.false_eq_true, if_false, xmlIdValue, BEq.rfl, if_true, hf, Bool.and_false]
+
+/-- … and any other attribute is stored as decoded (also one WRITTEN `xml:id` whose prefix `xml`
+    is — against Namespaces in XML — bound to another namespace). -/
+theorem C02_xmlid_expanded_only (stack : NsStack) (node : Path) (st : AttrLoop) (ab : AttributeBuilder)
+    (rest : List AttributeBuilder) (env1 : Env) (n : Nat)
+    (hname : attributeNameId st.env stack ab.pfx ab.name ab.prefixSpan = .ok (env1, n))
+    (hn : n ≠ Env.xmlIdName) (hnew : ¬ n ∈ st.seenNames) :
+    addAttributes stack node st (ab :: rest) =
+      addAttributes stack node
+        { env := env1, seenIds := st.seenIds, idNodes := st.idNodes, seenNames := st.seenNames ++ [n],
+          rkids := .node (.attribute n ab.value) [] :: st.rkids,
+          aspans := st.aspans ++ [(n, ab.nameSpan, ab.valueSpan)] } rest := by
+  have hc : st.seenNames.contains n = false := by simpa using hnew
+  have hb : (n == Env.xmlIdName) = false := by simpa using hn
+  rw [addAttributes]
+  simp only [hname, hc, Bool.false_eq_true, if_false, xmlIdValue, hb, Bool.false_and]
+
+/-- C02_xmlid_expanded, spelling level (what `C02_spelled_ns_*` return for such an attribute): an
+    attribute whose prefix is bound to the XML namespace and whose local name is `id` denotes the
+    expanded name (XML namespace, `id`) with the value stripped and collapsed. -/
+theorem C02_xmlid_expanded_spelled (scope : Scope) (a : NSAttr) (hp : scope.attrNs a.pfx.text = xmlNsUri)
+    (hl : a.loc.text = ['i', 'd']) :
+    a.denote scope = ((xmlNsUri, ['i', 'd']), xmlIdSpec (valueOf true a.pieces)) := by
+  simp only [NSAttr.denote, NSAttr.value, hp, hl, BEq.rfl, if_true, normalizeXmlId_spec]
+
+/-- `<a xmlns:p='http://www.w3.org/XML/1998/namespace' p:id='  x   y '/>`: the attribute node
+    carries `x y` under the name id of xml:id (1); namespace node `p` (prefix id 2) ↦ XML namespace (1). -/
+example : (build .document idViaOtherPrefixLen Env.fresh idViaOtherPrefix none).flat =
+    some [(0, .document), (1, .element 2), (2, .namespace 2 1), (2, .attribute 1 ['x', ' ', 'y'])] := by
   rw [build_eq_buildE]; decide +kernel
 
 /-! ### CDATA -/
@@ -356,7 +409,7 @@ theorem C02_fragment_spelled_ns {env : Env} (h : EnvBaseNs env) (len len' : Nat)
   obtain ⟨p, hp, _, hdp⟩ := C02_spelled_ns_fragment h len sns hw
   have hwell : WellNsDoc [NSNode.elem ⟨[], pstart⟩ w junk [] openSp sns ⟨[], cpstart⟩ cw closeSp] := by
     refine ⟨⟨⟨⟨fun a ha => by simp at ha, List.nodup_nil, List.nodup_nil, fun a ha => by simp [ordinary] at ha⟩,
-      rfl, hcw, rfl, hw.2.1, hw.1⟩, trivial⟩, rfl, ?_⟩
+      rfl, rfl, hcw, hw.2.1, hw.1⟩, trivial⟩, rfl, ?_⟩
     have := hw.2.2
     simpa [NSNode.denote.denoteList, NSNode.denote, NPNode.ids.idsList, NPNode.ids, attrIds, attrsOf, ordinary,
       declsOf, Scope.push] using this
@@ -369,11 +422,14 @@ theorem C02_fragment_spelled_ns {env : Env} (h : EnvBaseNs env) (len len' : Nat)
   · simpa [NSNode.tokens.tokensList] using hpw
   · rw [hdw]; rfl
 
-/-- An end tag that repeats the start tag's name as written satisfies the end-tag clause of `Well`
-    (`Well` itself is as liberal as `close_element`: any prefix bound to the same URI closes). -/
-theorem C02_endtag_as_written (scope : Scope) (pfx loc cpfx cloc : StrSpan) (h1 : cpfx.text = pfx.text)
-    (h2 : cloc.text = loc.text) : cloc.text = loc.text ∧ scope.lookup cpfx.text = scope.lookup pfx.text :=
-  ⟨h2, by rw [h1]⟩
+/-- The end-tag clause of `Well`: a well-formed spelling's end tags repeat the start tag's name as
+    written, prefix and local name (another prefix bound to the same URI is rejected:
+    `C03_reject_endtag_prefix`). -/
+theorem C02_endtag_as_written {scope : Scope} {pfx loc junk : StrSpan} {attrs : List NSAttr} {openSp : StrSpan}
+    {kids : List NSNode} {cpfx cloc closeSp : StrSpan}
+    (h : (NSNode.elem pfx loc junk attrs openSp kids cpfx cloc closeSp).Well scope) :
+    cpfx.text = pfx.text ∧ cloc.text = loc.text :=
+  ⟨h.2.2.1, h.2.2.2.1⟩
 
 /-- Non-vacuity.  As a spelling:
     `<a xmlns="d" xmlns:p="u" p:k="v&amp;"><p:b xmlns:p="w" p:j="1"/><c xmlns="" xml:id=" i "/>t</a>`
@@ -410,6 +466,34 @@ example : NSNode.denote.denoteList baseScope spelledNsExample =
 example : AbstractTopNs (NSNode.denote.denoteList baseScope spelledNsExample) := ⟨rfl, fun d hd => by
   simp only [spelledNsExample, NSNode.denote.denoteList, NSNode.denote, List.append_nil, List.mem_singleton] at hd
   subst hd; rfl⟩
+
+/-- Non-vacuity of the end-tag clause and of xml:id by expanded name.  As a spelling:
+    `<p:a xmlns:p="u" xmlns:q="u" xmlns:x="http://www.w3.org/XML/1998/namespace"><q:a x:id=" i  j "></q:a></p:a>`
+    — two prefixes for one namespace used for different elements, every end tag as its start tag;
+    a prefix other than `xml` bound to the XML namespace spells an `xml:id`. -/
+def spelledTwinExample : List NSNode :=
+  [.elem ⟨['p'], 1⟩ ⟨['a'], 3⟩ ⟨[], 0⟩
+    [{ pfx := ⟨xmlnsStr, 5⟩, loc := ⟨['p'], 11⟩, pieces := [.lit 'u'], vstart := 14, junk := ⟨[], 0⟩ },
+     { pfx := ⟨xmlnsStr, 17⟩, loc := ⟨['q'], 23⟩, pieces := [.lit 'u'], vstart := 26, junk := ⟨[], 0⟩ },
+     { pfx := ⟨xmlnsStr, 29⟩, loc := ⟨['x'], 35⟩, pieces := xmlNsUri.map .lit, vstart := 38, junk := ⟨[], 0⟩ }]
+    ⟨['>'], 75⟩
+    [.elem ⟨['q'], 77⟩ ⟨['a'], 79⟩ ⟨[], 0⟩
+       [{ pfx := ⟨['x'], 81⟩, loc := ⟨['i', 'd'], 83⟩, pieces := [.lit ' ', .lit 'i', .lit ' ', .lit ' ', .lit 'j', .lit ' '],
+          vstart := 87, junk := ⟨[], 0⟩ }]
+       ⟨['>'], 94⟩ [] ⟨['q'], 97⟩ ⟨['a'], 99⟩ ⟨['<', '/', 'q', ':', 'a', '>'], 95⟩]
+    ⟨['p'], 103⟩ ⟨['a'], 105⟩ ⟨['<', '/', 'p', ':', 'a', '>'], 101⟩]
+
+example : WellNsDoc spelledTwinExample := wellNsDocB_sound _ (by decide)
+
+example : NSNode.denote.denoteList baseScope spelledTwinExample =
+    [.elem ['u'] ['a'] [(['p'], ['u']), (['q'], ['u']), (['x'], xmlNsUri)] []
+      [.elem ['u'] ['a'] [] [((xmlNsUri, ['i', 'd']), ['i', ' ', 'j'])] []]] := by
+  rfl
+
+/-- … whereas `<p:a xmlns:p="u" xmlns:q="u"></q:a>` is no well-formed spelling in any scope. -/
+example (scope : Scope) (junk openSp closeSp : StrSpan) (attrs : List NSAttr) :
+    ¬ (NSNode.elem ⟨['p'], 1⟩ ⟨['a'], 3⟩ junk attrs openSp [] ⟨['q'], 31⟩ ⟨['a'], 33⟩ closeSp).Well scope :=
+  fun h => absurd (C02_endtag_as_written h).1 (by decide)
 
 /-! ### Positions do not matter -/
 
